@@ -22,7 +22,8 @@ STARTS = [("E12", False, 2, 3, 3), ("Type", False, 3, 4, 4), ("QueryStatement", 
           ("FE_Arg", False, 1, 2, 2), ("FE_Mod", False, 1, 2, 1), ("FD_Col", False, 1, 2, 1), ("FD_Seq", False, 1, 2, 2), ("FD_Ident", False, 1, 2, 2), ("FD_PG", False, 1, 2, 2),
           ("FD_PGProps", False, 1, 2, 2), ("FD_CS", False, 1, 2, 2), ("FM_Return", False, 1, 2, 2)]
 # (start, free, dense depth, budget quick, budget thorough)
-DENSE = [("QueryStatement", False, 2, 1, 2), ("DML", True, 2, 1, 2), ("DDL", True, 2, 1, 2), ("E12", False, 2, 1, 2), ("Call", False, 2, 1, 2)]
+# (dense DML / DDL at budget 2 are 6e5 sentences each: the thorough tier keeps budget 1 for them)
+DENSE = [("QueryStatement", False, 2, 1, 2), ("DML", True, 2, 1, 1), ("DDL", True, 2, 1, 1), ("E12", False, 2, 1, 2), ("Call", False, 2, 1, 2)]
 HEAVY = {"C04", "C05", "C06", "C16", "C17", "C19"}
 PROFILES = {"quick": 4, "thorough": 7}
 # C07: operator trees
